@@ -494,10 +494,41 @@ def run(ctx):
     ctx.nontrivial(None, k)
     ctx.extra('unit_conversions', k)
     n += k
+    import os
+    if os.environ.get('VERIF_ENVMODE', 'default') in ('default', 'c-locale'):      # (the child interpreter does not inherit -O etc.)
+        from .. import coldstart
+        n += coldstart.phase(ctx, overlap_jobs(f'{ctx.seed}:overlap'), 'cumulative seconds == tempo-map integral', offset=6)
     ctx.count('cases', n)
 
 
+def overlap_jobs(seed):
+    """Two threads iterate and measure two DIFFERENT files (other resolution, other tempi) at the same time: each
+    gets the times it gets when running alone (vmon.coldstart, warm mode, all schedules with <= 1 pre-emption)."""
+    import io
+    rng = random.Random(seed)
+    files = []
+    for tpb, tempi in ((96, (250000, 1000000)), (480, (500000, 333333)), (7, (1, 16777215))):
+        mid = MidiFile(type=1, ticks_per_beat=tpb)
+        tr = MidiTrack()
+        for i in range(6):
+            if i % 2 == 0:
+                tr.append(MetaMessage('set_tempo', tempo=tempi[(i // 2) % 2], time=rng.choice((0, 10, 96))))
+            tr.append(Message('note_on', note=i, time=rng.choice((1, 48, 480))))
+        mid.tracks.append(tr)
+        buf = io.BytesIO()
+        mid.save(file=buf)
+        files.append(buf.getvalue().hex())
+    ops = [{'fn': 'timing', 'data': f, 'want': '__sequential__'} for f in files]
+    mods = ['mido.midifiles.midifiles', 'mido.midifiles.units', 'mido.midifiles.tracks']
+    return [{'modules': mods, 'jobs': [[ops[0]], [ops[1], ops[2]]], 'k': 1, 'fresh': False},
+            {'modules': mods, 'jobs': [[ops[2]], [ops[0]]], 'k': 1, 'fresh': False, 'limit': 400}]
+
+
 def replay(ctx, case):
+    if case.get('kind') == 'cold':
+        from .. import coldstart
+        coldstart.replay(ctx, case, 'cumulative seconds == tempo-map integral')
+        return
     k = case['kind']
     if k in ('file', 'play'):
         seed = case['seed'].split(':')
